@@ -4,16 +4,22 @@ xh (ideal AEAD, base64url = lossless wrapper, integer clock, fake falcon req/res
 
 (a) `_seal_session_token` / `_open_session_token`: round trip of (server_id, session_id, expires_at)
     only under the same key and AAD; an arbitrary authenticated plaintext is either rejected with
-    the fixed `SessionLostError('malformed session token')` or parsed into fields that account for
+    a `SessionLostError` (error kind session_lost; wording not asserted) or parsed into fields that account for
     every byte of it.
 (b) `_StickyMiddleware.process_request` (+ `_principal_key`, `_expected_server_id`, `_SessionRegistry.get`,
     the real `_open_session` that minted the token): dispatch proceeds with the session installed
     <=> token minted here and unmodified, same worker, same caller identity, session live; in every
     other case the response is completed with the session_lost error and nothing is installed.
-(c) `_SessionResource.on_delete`: 204 (+ close header, state closed exactly once) <=> live and
-    owned; in every other case a 200 that is identical whatever the reason.
-(d) `_SessionRegistry.get`: defence in depth — a live entry is returned only for its own principal
-    key and strictly before its expiry; expired entries are evicted and closed.
+(c) `_SessionResource.on_delete`: 204 (session closed and no longer registered, the caller's other
+    session untouched) <=> live and owned; in every other case a 200 that is indistinguishable (status,
+    headers, body) from the 200 the same caller gets without any token, and that closes nobody's live session.
+(d) `_SessionRegistry.get`: defence in depth — an entry is returned only for its own principal key and
+    never strictly past its expiry; a live session is never refused to its owner; a non-owner's lookup
+    closes nothing.
+    The expiry instant itself (request time == open time + ttl) is judged agnostically everywhere: the
+    property fixes no boundary, so "refused" and "served to the owner" are both accepted there, nothing else.
+    Not asserted (beyond the property): error message wording, the status code handed to
+    `_set_error_response`, response headers of a 204, private `req.context` attributes, in-line eviction.
 (e) smt + xh: identity binding for ALL identities — `_compute_aad` and `_principal_key` translated from
     their live source: no two distinct identities (NUL-free domains, unbounded strings) share both the
     session AAD and the registry key (cvc5; z3 cross-check), witness replayed on the un-stubbed
@@ -58,7 +64,8 @@ ASSUMPTIONS = [
     "base64.urlsafe_b64encode/.rstrip(b'=')/.decode and the inverse path := lossless wrapper around the sealed box; a client-made header string decodes to garbage bytes or fails",
     "time.time := integer clock; secrets.token_bytes := fresh ids",
     "struct.Struct objects := the same format through CrossHair's struct model",
-    "_set_error_response := recorder of (exception, status) — its Arrow rendering is C15's subject",
+    "_set_error_response := recorder of (exception, status) — its Arrow rendering is C15's subject; the replays run the real one on real falcon Request/Response objects and read error_kind back from the Arrow envelope",
+    "falcon Request/Response := fakes with path/env/context/get_header and complete/status/headers/stream/content_type/set_header; anything else raises HarnessModelError (=> INCONCLUSIVE)",
     "(b,c) use 4 representative identities (None, unauthenticated-with-fields, ('d','p'), ('d','q')) plus the anonymous look-alikes ('' | None, 'anonymous'); that distinct identities never share (session AAD, registry key) is decided for ALL identities in (e)",
     "str.encode() (UTF-8) is injective and maps exactly the NUL-free strings to NUL-free byte strings (e)",
 ]
@@ -81,6 +88,11 @@ class _WireBytes:
     def decode(self, enc: str = "ascii") -> "_WireStr":
         return _WireStr(self.box)
 
+    def __getattr__(self, name: str) -> Any:
+        if name.startswith("__"):
+            raise AttributeError(name)
+        raise HarnessModelError(f"base64 text (bytes).{name} is not modelled")
+
 
 class _WireStr:
     """The VGI-Session header value carrying a sealed box (opaque to everybody else)."""
@@ -101,6 +113,11 @@ class _WireStr:
 
     def encode(self, enc: str = "ascii") -> _WireBytes:
         return _WireBytes(self.box)
+
+    def __getattr__(self, name: str) -> Any:
+        if name.startswith("__"):
+            raise AttributeError(name)
+        raise HarnessModelError(f"VGI-Session header value (str).{name} is not modelled")
 
 
 class _B64Url(tc._Strict):
@@ -132,6 +149,11 @@ class _StructObj:
     def unpack_from(self, buf: Any, offset: int = 0) -> Any:
         return tc.STRUCT.unpack_from(self.format, buf, offset)
 
+    def __getattr__(self, name: str) -> Any:
+        if name.startswith("__"):
+            raise AttributeError(name)
+        raise HarnessModelError(f"struct.Struct.{name} is not modelled")
+
 
 class _Secrets(tc._Strict):
     _name = "secrets"
@@ -146,8 +168,13 @@ _B64U = _B64Url()
 seal_session_token = reglobalize(sk._seal_session_token, crypto=tc.AEAD, base64=_B64U, time=tc.TIME, _PLAINTEXT_PREFIX=_PREFIX, _PLAINTEXT_SUFFIX=_SUFFIX)
 open_session_token = reglobalize(sk._open_session_token, crypto=tc.AEAD, base64=_B64U, _PLAINTEXT_PREFIX=_PREFIX, _PLAINTEXT_SUFFIX=_SUFFIX)
 
-_MSG_MALFORMED = "malformed session token"
-_MSG_VERIFY = "session token verification failed"
+
+
+def _is_session_lost(e: object) -> bool:
+    """The typed error the property names: a SessionLostError whose wire kind is 'session_lost' (its message is free text)."""
+    return isinstance(e, SessionLostError) and getattr(e, "error_kind", None) == "session_lost"
+
+
 _U64 = 2**64
 _SERVER_IDS = ("", "w1", "worker-2", "é")
 
@@ -184,12 +211,14 @@ def _replay_round_trip(args: dict) -> str | None:
     tok = sk._seal_session_token(sid, args["session_id"], args["expires"], key, aad, now=5)
     try:
         got = sk._open_session_token(tok, key if args["same_key"] else b"x" * 32, aad if args["same_aad"] else b"aad-2")
-    except SessionLostError as e:
+    except Exception as e:  # noqa: BLE001
         got = e
     if args["same_key"] and args["same_aad"]:
         want = (sid, args["session_id"], args["expires"])
         return None if got == want else f"session token minted for server_id {sid!r} opens as {got!r} (expected {want!r})"
-    return None if isinstance(got, SessionLostError) else f"session token opened under another key/aad: {got!r}"
+    if isinstance(got, Exception):
+        return None if _is_session_lost(got) else f"session token presented under another key/aad was answered with {got!r}, not a session_lost error"
+    return f"session token opened under another key/aad: {got!r}"
 
 
 def _round_trip(srv: int, session_id: bytes, expires: int, same_key: bool, same_aad: bool) -> bool:
@@ -202,7 +231,10 @@ def _round_trip(srv: int, session_id: bytes, expires: int, same_key: bool, same_
     try:
         got = open_session_token(tok, b"k1" if same_key else b"k2", b"aad-1" if same_aad else b"aad-2")
     except SessionLostError as e:
-        return not (same_key and same_aad) and e.args == (_MSG_VERIFY,)
+        # the property names the error kind, not its text
+        return not (same_key and same_aad) and _is_session_lost(e)
+    except HarnessModelError:
+        raise
     except Exception:  # noqa: BLE001
         return False
     return same_key and same_aad and got == (sid, session_id, expires)
@@ -218,7 +250,29 @@ def session_token_round_trip(srv: int, session_id: bytes, expires: int, same_key
     return _round_trip(_pick(srv, 3), session_id, (0, 1700000000, _U64 - 1)[_pick(expires, 3)], same_key, same_aad)
 
 
-@cond(q=30, t=60, stubs=ASSUMPTIONS[:4], encoded=[sk._seal_session_token], bound="any 64-bit expires_at and clock, any 12-byte session id, ASCII server ids")
+def _replay_layout(args: dict) -> str | None:
+    """Real crypto / base64 / struct; only the module clock is substituted.  The sealed plaintext must be the spec's frame."""
+    import base64
+
+    from vgi_rpc import crypto
+
+    sid, session_id, key, aad = _SERVER_IDS[args["srv"]], bytes(args["session_id"]), b"k" * 32, b"a"
+    saved, sk.time = sk.time, tc._FakeClock(args["now"])  # type: ignore[assignment]
+    try:
+        tok = sk._seal_session_token(sid, session_id, args["expires"], key, aad)
+    finally:
+        sk.time = saved
+    raw = base64.urlsafe_b64decode(tok + "=" * (-len(tok) % 4))
+    try:
+        plain = crypto.open_bytes(raw, key, aad=aad, version=sk._TOKEN_VERSION)
+    except crypto.SealError as e:
+        return f"a session token sealed with (key, aad) does not open under the same (key, aad): {e!r}"
+    want = args["now"].to_bytes(8, "little") + bytes([len(sid.encode())]) + sid.encode() + session_id + args["expires"].to_bytes(8, "little")
+    return None if plain == want else f"sealed plaintext {plain!r} is not the spec's frame created_at|len|server_id|session_id|expires_at = {want!r}"
+
+
+@cond(q=30, t=60, stubs=ASSUMPTIONS[:4], encoded=[sk._seal_session_token], bound="any 64-bit expires_at and clock, any 12-byte session id, ASCII server ids",
+      replay=_replay_layout, signature=lambda a, c: "C25:token:seal-layout")
 def seal_side_layout(srv: int, session_id: bytes, expires: int, now: int) -> bool:
     """
     pre: 0 <= srv <= 2 and len(session_id) == 12 and 0 <= expires < _U64 and 0 <= now < _U64
@@ -248,6 +302,8 @@ def session_token_round_trip_non_ascii_server_id(srv: int, expires: int) -> bool
     tok = seal_session_token(sid, session_id, exp, b"k1", b"aad-1")
     try:
         return open_session_token(tok, b"k1", b"aad-1") == (sid, session_id, exp)
+    except HarnessModelError:
+        raise
     except Exception:  # noqa: BLE001
         return False
 
@@ -262,7 +318,7 @@ def _replay_plain(args: dict) -> str | None:
     try:
         server_id, session_id, expires = sk._open_session_token(tok, b"k" * 32, b"a")
     except SessionLostError as e:
-        return None if e.args == (_MSG_MALFORMED,) else f"unexpected message {e.args!r}"
+        return None if _is_session_lost(e) else f"SessionLostError without error_kind 'session_lost': {e!r}"
     except Exception as e:  # noqa: BLE001
         return f"_open_session_token raised {e!r}"
     n = data[8] if len(data) > 8 else -1
@@ -285,7 +341,9 @@ def session_token_arbitrary_plaintext(raw: bytes) -> bool:
     try:
         server_id, session_id, expires = open_session_token(tok, b"k", b"a")
     except SessionLostError as e:
-        return e.args == (_MSG_MALFORMED,)
+        return _is_session_lost(e)  # rejected with the typed error; its wording is free
+    except HarnessModelError:
+        raise
     except Exception:  # noqa: BLE001
         return False
     n = data[8]
@@ -343,8 +401,16 @@ class _Req:
         self.context = SimpleNamespace()
         self._headers = {} if token is None else {SESSION_HEADER: token}
 
-    def get_header(self, name: str) -> Any:
-        return self._headers.get(name)
+    def get_header(self, name: str, *a: Any, **k: Any) -> Any:
+        # falcon: get_header(name, required=False, default=None)
+        if (a and a[0]) or k.get("required"):
+            raise HarnessModelError("get_header(required=True) is not modelled")
+        return self._headers.get(name, a[1] if len(a) > 1 else k.get("default"))
+
+    def __getattr__(self, name: str) -> Any:
+        if name.startswith("__"):
+            raise AttributeError(name)
+        raise HarnessModelError(f"falcon.Request.{name} is not modelled")
 
 
 class _Resp:
@@ -357,6 +423,11 @@ class _Resp:
 
     def set_header(self, name: str, value: str) -> None:
         self.headers[name] = value
+
+    def __getattr__(self, name: str) -> Any:
+        if name.startswith("__"):
+            raise AttributeError(name)
+        raise HarnessModelError(f"falcon.Response.{name} is not modelled")
 
 
 _IDS = [
@@ -411,7 +482,7 @@ def _world(i_open: int, ttl: int):  # type: ignore[no-untyped-def]
     s1, s2 = _State("s1"), _State("s2")
     t1 = _open(a, _IDS[i_open], s1, ttl)
     t2 = _open(a, _IDS[i_open], s2, ttl)
-    sid1, sid2 = list(a.registry._entries)
+    sid1, sid2 = list(a.registry)
     return a, (s1, t1, sid1), (s2, t2, sid2)
 
 
@@ -428,18 +499,48 @@ def _inject_twin(w, sid: bytes, auth) -> None:  # type: ignore[no-untyped-def]
 
     with _As(auth):
         pk = sk._StickyMiddleware._principal_key(_Req(w.server_id, None))
-    w.registry._entries[sid] = sk._SessionEntry(state=_State("twin"), expires_at=10**12, principal_key=pk, lock=threading.RLock())
+    try:
+        w.registry._entries[sid] = sk._SessionEntry(state=_State("twin"), expires_at=10**12, principal_key=pk, lock=threading.RLock())
+    except (AttributeError, TypeError) as e:
+        # the only place the harness writes the registry's private layout: a changed layout is a harness matter
+        raise HarnessModelError(f"cannot plant a same-id session in the other worker's registry: {e!r}") from e
 
 
 def _should_serve(i_open: int, r: int, tok_sel: int, same_worker: bool, closed1: bool, dt: int, ttl: int) -> int:
-    """0 = refused; 1 / 2 = served with session 1 / 2."""
+    """0 = refused; 1 / 2 = served with session 1 / 2.  At the expiry instant itself (request time == open time + ttl)
+    the property fixes no boundary: this says 'served', and the callers also accept a refusal there (_at_expiry),
+    evaluated only when the code did refuse - so the agnostic boundary costs no extra paths."""
     if tok_sel > 1 or not same_worker or tc.real_identity(_IDS[i_open]) != tc.real_identity(_IDS[r]):
         return 0
-    if _T0 + dt > _T0 + ttl:  # registry: expired when expires_at < now
+    if dt > ttl:  # strictly past its expiry
         return 0
-    if tok_sel == 0:
-        return 0 if closed1 else 1
-    return 2
+    if tok_sel == 0 and closed1:
+        return 0
+    return 1 if tok_sel == 0 else 2
+
+
+def _status_of(resp: Any) -> int:
+    s = resp.status
+    return int(s) if isinstance(s, int) else int(str(s)[:3])
+
+
+def _real_error_kind(resp: Any) -> Any:
+    """error_kind carried by the Arrow error envelope of a real response (un-stubbed _set_error_response)."""
+    import pyarrow as pa
+
+    try:
+        body = resp.stream
+        data = body.getvalue() if hasattr(body, "getvalue") else b"".join(body)
+        reader = pa.ipc.open_stream(data)
+        while True:
+            try:
+                _batch, md = reader.read_next_batch_with_custom_metadata()
+            except StopIteration:
+                return None
+            if md is not None and md.get(b"vgi_rpc.error_kind") is not None:
+                return md.get(b"vgi_rpc.error_kind").decode()
+    except Exception as e:  # noqa: BLE001
+        raise HarnessModelError(f"cannot read the error envelope of the real response: {e!r}") from e
 
 
 def _cleanup(w, req, resp) -> None:  # type: ignore[no-untyped-def]
@@ -461,31 +562,39 @@ def _middleware_check(i_open: int, r: int, tok_sel: int, same_worker: bool, same
     if drained:
         a.registry.drain_expired(_T0 + dt)
     want = _should_serve(i_open, r, tok_sel, same_worker, closed1, dt, ttl)
-    req, resp = _Req(w.server_id, token), _Resp()
+    req, resp = impl.make_req(w.server_id, token), impl.make_resp()
     n_err = len(impl.errors)
+    closed_before = (s1.closed, s2.closed)
     with _As(_IDS[r]):
         impl.process_request(w.mw, req, resp)
+        # what the method would see: resp.complete makes Falcon skip dispatch; the session contextvar is what
+        # CallContext.session reads
         ctx = rc._current_session_context.get()
-        entry = getattr(req.context, "sticky_entry", None)
         try:
             if token is None:
-                return (not resp.complete) and ctx is None and entry is None and len(impl.errors) == n_err
+                return (not resp.complete) and ctx is None and len(impl.errors) == n_err
+            if want != 0 and resp.complete and dt == ttl:
+                want = 0  # refused at the expiry instant itself: as acceptable as serving it there
             if want == 0:
-                if not (resp.complete and ctx is None and entry is None and not hasattr(req.context, "sticky_sink")):
+                if not (resp.complete and ctx is None):
                     return "a request that must be refused was dispatched / had a session installed"
+                if (s1.closed, s2.closed) != closed_before and dt < ttl:
+                    return "a refused presentation closed a live session"
                 if impl.stubbed:
-                    (exc, status) = impl.errors[-1]
-                    return len(impl.errors) == n_err + 1 and isinstance(exc, SessionLostError) and exc.error_kind == "session_lost" and status == HTTPStatus.INTERNAL_SERVER_ERROR
-                return resp.stream is not None
+                    return len(impl.errors) > n_err and _is_session_lost(impl.errors[-1][0])
+                kind = _real_error_kind(resp)
+                return True if kind == "session_lost" else f"a refused request was answered with error_kind {kind!r}, not 'session_lost'"
             st_want = (s1, s2)[want - 1]
-            if resp.complete or ctx is None or entry is None:
+            if resp.complete or ctx is None:
                 return "a live session presented by its owner on its worker was refused"
-            return ctx.state is st_want and entry.state is st_want and ctx.session_id == (sid1, sid2)[want - 1].hex() and len(impl.errors) == n_err and s1.closed == (1 if closed1 else 0)
+            # the owner gets *its* session, and resuming it closes nothing
+            return ctx.state is st_want and len(impl.errors) == n_err and (s1.closed, s2.closed) == closed_before
         finally:
             _cleanup(w, req, resp)
 
 
-_STUBBED = SimpleNamespace(stubbed=True, world=_world, set_clock=lambda t: tc.HOLD.__setitem__("now", t), errors=_ERRORS, process_request=process_request, on_delete=on_delete)
+_STUBBED = SimpleNamespace(stubbed=True, world=_world, set_clock=lambda t: tc.HOLD.__setitem__("now", t), errors=_ERRORS, process_request=process_request, on_delete=on_delete,
+                           make_req=lambda server_id, token: _Req(server_id, token), make_resp=lambda: _Resp())
 
 
 class _RealImpl:
@@ -520,19 +629,32 @@ class _RealImpl:
         out = []
         for name in ("s1", "s2"):
             state = _State(name)
-            req = _Req(a.server_id, None)
+            req = self.make_req(a.server_id, None)
             with _As(_IDS[i_open]):
                 tok = a.mw._open_session(req, sk._StickyMiddleware._principal_key(req), state, ttl)
             rc._current_session_context.reset(req.context.sticky_session_token)
             rc._current_session_id.reset(req.context.sticky_session_id_token)
             out.append((state, tok))
-        sid1, sid2 = list(a.registry._entries)
+        sid1, sid2 = list(a.registry)
         return a, (out[0][0], out[0][1], sid1), (out[1][0], out[1][1], sid2)
 
     def present(self, a, t1, t2, tok_sel, same_worker, same_server_id):  # type: ignore[no-untyped-def]
         w = a if same_worker else self._worker("w1" if same_server_id else "w2")
         foreign = sk._seal_session_token("w1", b"\x00" * 12, 2**40, b"other-key", st._compute_aad(None))
         return w, [t1, t2, foreign, "!!not-a-token!!", None][tok_sel]
+
+    def make_req(self, server_id: str, token: Any):  # type: ignore[no-untyped-def]
+        """A real falcon.Request, with the worker's server id where install_server_id_middleware puts it."""
+        import falcon.testing
+
+        req = falcon.testing.create_req(path="/vgi/m", headers={} if token is None else {SESSION_HEADER: token})
+        req.env["vgi_rpc.server_id"] = server_id
+        return req
+
+    def make_resp(self):  # type: ignore[no-untyped-def]
+        import falcon
+
+        return falcon.Response()
 
     def process_request(self, mw, req, resp) -> None:  # type: ignore[no-untyped-def]
         mw.process_request(req, resp)
@@ -556,7 +678,8 @@ def _replay_middleware(args: dict) -> str | None:
     return (got if isinstance(got, str) else "sticky middleware outcome differs from the specification") + f" (opener {_IDS[args['i_open']]!r}, requester {_IDS[args['r']]!r}, args {args!r})"
 
 
-_MW_STUBS = ASSUMPTIONS[:5]
+_MW_STUBS = ASSUMPTIONS[:6]
+_DEL_STUBS = ASSUMPTIONS[:4] + [ASSUMPTIONS[5]]
 _MW_ENC = [sk._StickyMiddleware.process_request, sk._StickyMiddleware._principal_key, sk._StickyMiddleware._open_session, sk._SessionRegistry.get, sk._SessionRegistry.open, sk._expected_server_id]
 _MW_BOUND = "opener x requester over 4 identities; same worker / another worker with the same server id / another worker (optionally holding a same-principal session under the same session id); session 1 live, closed, or reaper ran; any request time >= open time, any ttl 0..1e9 s; token: "
 
@@ -598,22 +721,29 @@ def _delete_check(i_open: int, r: int, tok_sel: int, where: int, life: int, dt: 
         a.registry.drain_expired(_T0 + dt)
     want = _should_serve(i_open, r, tok_sel, sw, closed1, dt, ttl)
     before = (s1.closed, s2.closed)
-    req, resp = _Req(w.server_id, token), _Resp()
+    req, resp = impl.make_req(w.server_id, token), impl.make_resp()
+    ref = impl.make_resp()
     with _As(_IDS[r]):
+        # the reference refusal: what this caller gets on this worker when it presents no token at all
+        impl.on_delete(w.resource, impl.make_req(w.server_id, None), ref)
         impl.on_delete(w.resource, req, resp)
+    if _status_of(ref) != HTTPStatus.OK:
+        return "DELETE without a token did not answer 200"
+    if want != 0 and _status_of(resp) != HTTPStatus.NO_CONTENT and dt == ttl:
+        want = 0  # refused at the expiry instant itself: as acceptable as a 204 there
     if want == 0:
-        # one uniform answer whatever the reason: 200, no header, no body, and no live session of anybody is closed
-        if not (resp.status == HTTPStatus.OK and resp.headers == {} and resp.stream is None and not resp.complete):
+        # one uniform answer whatever the reason: indistinguishable from the no-token 200, and no live session of anybody is closed
+        if (_status_of(resp), dict(resp.headers), resp.stream, resp.complete) != (_status_of(ref), dict(ref.headers), ref.stream, ref.complete):
             return "DELETE that must be refused is distinguishable from the uniform 200"
-        expired = _T0 + dt > _T0 + ttl
-        if not expired and ((s1.closed, s2.closed) != before or any(t.closed for t in twins)):
+        if ((s1.closed, s2.closed) != before and dt < ttl) or any(t.closed for t in twins):
             return "DELETE that must be refused closed a live session"
         return True
     target, sid = ((s1, sid1), (s2, sid2))[want - 1]
-    other = (s2, s1)[want - 1]
-    if resp.status != HTTPStatus.NO_CONTENT:
+    other, other_before = (s2, s1)[want - 1], (before[1], before[0])[want - 1]
+    if _status_of(resp) != HTTPStatus.NO_CONTENT:
         return "DELETE of a live session by its owner on its worker did not answer 204"
-    return resp.headers == {SESSION_CLOSE_HEADER: "true"} and target.closed == 1 and sid not in a.registry._entries and other.closed == (1 if (closed1 and want == 2) else 0)
+    # 204 means the session is really gone (closed, no longer registered); the caller's other session is untouched
+    return target.closed >= 1 and sid not in list(a.registry) and other.closed == other_before and not any(t.closed for t in twins)
 
 
 def _replay_delete(args: dict) -> str | None:
@@ -628,7 +758,7 @@ _DEL_OPENERS = pick((0, 2), (0, 1, 2, 3))  # quick: anonymous and one authentica
 _DEL_ENC = [sk._SessionResource.on_delete, sk._SessionRegistry.get, sk._SessionRegistry.close, sk._StickyMiddleware._principal_key]
 
 
-@cond(q=60, t=300, stubs=ASSUMPTIONS[:4], encoded=_DEL_ENC, bound="(openers: %s) " % (_DEL_OPENERS,) + _MW_BOUND + "session 1's or session 2's genuine token", replay=_replay_delete, signature=lambda a, c: "C25:delete:decision")
+@cond(q=60, t=300, stubs=_DEL_STUBS, encoded=_DEL_ENC, bound="(openers: %s) " % (_DEL_OPENERS,) + _MW_BOUND + "session 1's or session 2's genuine token", replay=_replay_delete, signature=lambda a, c: "C25:delete:decision")
 def delete_204_iff_live_and_owned_else_uniform_200(i_open: int, r: int, tok_sel: int, where: int, life: int, dt: int, ttl: int, twin: bool) -> bool:
     """
     pre: i_open in _DEL_OPENERS and 0 <= r <= 3 and 0 <= tok_sel <= 1 and 0 <= where <= 2 and 0 <= life <= 2 and dt >= 0 and 0 <= ttl <= 1000000000
@@ -637,7 +767,7 @@ def delete_204_iff_live_and_owned_else_uniform_200(i_open: int, r: int, tok_sel:
     return _delete_check(i_open, r, tok_sel, where, life, dt, ttl, _STUBBED, twin) is True
 
 
-@cond(q=60, t=300, stubs=ASSUMPTIONS[:4], encoded=_DEL_ENC, bound="(openers: %s) " % (_DEL_OPENERS,) + _MW_BOUND + "sealed under a foreign key / not a token / absent", replay=_replay_delete, signature=lambda a, c: "C25:delete:forged-token")
+@cond(q=60, t=300, stubs=_DEL_STUBS, encoded=_DEL_ENC, bound="(openers: %s) " % (_DEL_OPENERS,) + _MW_BOUND + "sealed under a foreign key / not a token / absent", replay=_replay_delete, signature=lambda a, c: "C25:delete:forged-token")
 def delete_with_forged_or_absent_token_is_uniform_200(i_open: int, r: int, tok_sel: int, where: int, life: int, dt: int, ttl: int) -> bool:
     """
     pre: i_open in _DEL_OPENERS and 0 <= r <= 3 and 2 <= tok_sel <= 4 and 0 <= where <= 2 and 0 <= life <= 2 and dt >= 0 and 0 <= ttl <= 1000000000
@@ -654,25 +784,26 @@ def delete_with_forged_or_absent_token_is_uniform_200(i_open: int, r: int, tok_s
 def _replay_registry(args: dict) -> str | None:
     with _RealImpl() as impl:
         ok = _registry_check(args["same_key"], args["same_sid"], args["dt"], args["ttl"], sk._SessionRegistry(default_ttl=30), impl.set_clock)
-    return None if ok else f"_SessionRegistry.get returned the wrong entry / kept an expired one for {args!r}"
+    return None if ok else f"_SessionRegistry.get handed a session to a non-owner / past its expiry, or a non-owner's lookup closed it ({args!r})"
 
 
 def _registry_check(same_key: bool, same_sid: bool, dt: int, ttl: int, reg, set_clock) -> bool:  # type: ignore[no-untyped-def]
     set_clock(_T0)
     state, other = _State("mine"), _State("other")
-    sid, exp = reg.open(state, ttl, "d\x00p")
+    sid, _e1 = reg.open(state, ttl, "d\x00p")
     sid2, _e2 = reg.open(other, ttl, "d\x00q")
     set_clock(_T0 + dt)
     got = reg.get(sid if same_sid else sid2, "d\x00p" if same_key else "d\x00q")
-    expired = exp < _T0 + dt
     looked = state if same_sid else other
     owner_matches = same_key == same_sid
-    if expired:
-        # evicted and closed, whoever asked
-        return got is None and looked.closed == 1 and (sid if same_sid else sid2) not in reg._entries
+    if got is not None:
+        # only to its owner, only the live session itself, never strictly past its expiry
+        return owner_matches and got.state is looked and looked.closed == 0 and not dt > ttl
     if owner_matches:
-        return got is not None and got.state is looked and looked.closed == 0
-    return got is None and looked.closed == 0 and len(reg._entries) == 2
+        return dt >= ttl  # a miss for the owner: only from the expiry instant on (the property fixes no boundary at dt == ttl)
+    # somebody else's lookup misses - and, while the session is live, costs the owner nothing
+    # (when - and whether - a lookup also evicts an expired entry is not the property's subject)
+    return (state.closed == 0 and other.closed == 0 and len(reg) == 2) or dt >= ttl
 
 
 @cond(q=30, t=60, stubs=[ASSUMPTIONS[2]], encoded=[sk._SessionRegistry.get, sk._SessionRegistry.open], bound="two sessions of two principals; any lookup (session x principal key); any integer ttl 0..1e9 and request time", replay=_replay_registry,
@@ -707,7 +838,7 @@ def anonymous_lookalike_identities_are_isolated(i_open: int, r: int, tok_sel: in
     return _middleware_check(i_open, r, tok_sel, True, False, False, False, dt, ttl, _STUBBED) is True
 
 
-@cond(q=40, t=120, stubs=ASSUMPTIONS[:4], encoded=[*_DEL_ENC, st._compute_aad], bound="same identity set; DELETE with the genuine token of session 1 / 2; same worker; live; any time/ttl",
+@cond(q=40, t=120, stubs=_DEL_STUBS, encoded=[*_DEL_ENC, st._compute_aad], bound="same identity set; DELETE with the genuine token of session 1 / 2; same worker; live; any time/ttl",
       replay=_replay_delete, signature=lambda a, c: "C25:identity:anonymous-lookalike")
 def anonymous_lookalike_identities_cannot_delete(i_open: int, r: int, tok_sel: int, where: int, life: int, dt: int, ttl: int) -> bool:
     """
@@ -729,19 +860,20 @@ def _replay_binding(x, y) -> dict:  # type: ignore[no-untyped-def]
     with _RealImpl() as impl:
         a = impl._worker("w1")
         state = _State("victim")
-        req0 = _Req("w1", None)
+        req0 = impl.make_req("w1", None)
         with _As(x):
             token = a.mw._open_session(req0, sk._StickyMiddleware._principal_key(req0), state, 60)
         rc._current_session_context.reset(req0.context.sticky_session_token)
         rc._current_session_id.reset(req0.context.sticky_session_id_token)
-        req, resp = _Req("w1", token), _Resp()
+        req, resp = impl.make_req("w1", token), impl.make_resp()
         with _As(y):
             a.mw.process_request(req, resp)
-            resumed = (not resp.complete) and getattr(req.context, "sticky_entry", None) is not None and req.context.sticky_entry.state is state
+            seen = rc._current_session_context.get()
+            resumed = (not resp.complete) and seen is not None and seen.state is state
             a.mw.process_response(req, resp, None, True)
-            dreq, dresp = _Req("w1", token), _Resp()
+            dreq, dresp = impl.make_req("w1", token), impl.make_resp()
             a.resource.on_delete(dreq, dresp)
-        deleted = dresp.status == HTTPStatus.NO_CONTENT and state.closed == 1
+        deleted = _status_of(dresp) == HTTPStatus.NO_CONTENT or state.closed >= 1
     if resumed or deleted:
         return {
             "verdict": "VIOLATION",
